@@ -29,17 +29,30 @@ def _run_procs(cmds, timeout_s, env=None, cwd=None, max_par=None, mem_gb=None):
     pending = list(enumerate(cmds))
     running = []
 
+    MARKERS = ("Undefined Behavior", "Data race detected", "memory leaked", "WARNING: ThreadSanitizer", "ERROR: AddressSanitizer", "ERROR: LeakSanitizer")
+
     def tail_of(f):
+        """End of the child's output; a sanitizer / interpreter diagnostic that sits far above the
+        end (Miri prints long backtraces after it) is put in front so that it is never cut off."""
         try:
             f.flush()
             f.seek(0, 2)
             n = f.tell()
-            f.seek(max(0, n - 6000))
-            return f.read().decode("utf-8", "replace")
+            f.seek(max(0, n - 4_000_000))
+            text = f.read().decode("utf-8", "replace")
         except Exception:
             return ""
         finally:
             f.close()
+        tail = text[-3500:]
+        lines = text.splitlines()
+        for k, l in enumerate(lines):
+            if any(m in l for m in MARKERS):
+                excerpt = "\n".join(lines[k:k + 14])[:1500]
+                if excerpt not in tail:
+                    return excerpt + "\n[...]\n" + tail
+                break
+        return tail
 
     while pending or running:
         while pending and len(running) < max_par:
@@ -58,11 +71,11 @@ def _run_procs(cmds, timeout_s, env=None, cwd=None, max_par=None, mem_gb=None):
                         p.wait(timeout=5)
                     except Exception:
                         pass
-                    res[i] = (None, time.time() - t0, True, tail_of(out)[-4000:])
+                    res[i] = (None, time.time() - t0, True, tail_of(out))
                 else:
                     still.append((i, p, t0, out))
             else:
-                res[i] = (rc, time.time() - t0, False, tail_of(out)[-4000:])
+                res[i] = (rc, time.time() - t0, False, tail_of(out))
         running = still
         if running:
             time.sleep(0.02)
